@@ -464,12 +464,15 @@ func newList(r io.Reader) (Value, error) {
 	if size > listValueMaxSize {
 		return nil, ErrListValueTooLong
 	}
-	list := make([]Value, size)
-	for i := range list {
-		list[i], err = NewValue(r)
+	// do not allocate the announced size: a few bytes at each level of
+	// nested lists would reserve 4096 values.
+	list := make([]Value, 0)
+	for i := 0; i < int(size); i++ {
+		v, err := NewValue(r)
 		if err != nil {
 			return nil, err
 		}
+		list = append(list, v)
 	}
 	return ListValue(list), err
 }
